@@ -590,3 +590,270 @@ def topo_rows(schema, rows, expected):
 
 ENGINE = DeliveryEngine()
 ENGINES = [ENGINE]
+
+
+# ----------------------------------------------------------------------------
+# C11: the loading and command-line half
+# ----------------------------------------------------------------------------
+class Load11Engine(DeliveryEngine):
+    '''
+    Over-populated ends are only reachable by loading duplicate keys, and the
+    command-line tools only see files: the generated population is written to
+    the simulated disk (file order seeded, F3), loaded, and every count of the
+    consistency check is compared with nested-loop counts over the rows; then
+    xtuml.consistency_check.main / bridgepoint.consistency_check.main and the
+    `python -m` entry points are run in-process on the same files with random
+    -r / -k restrictions.
+    '''
+    name = 'load11'
+    props = ()
+
+    def describe(self, prop):
+        d = DeliveryEngine.describe(self, prop)
+        d['rule'] = ('seeded populations with duplicate, null and dangling keys written as files on the simulated disk; counts '
+                     'of check_association_integrity / check_uniqueness_constraint / is_consistent (whole model, one '
+                     'association, one class) and the return value and exit status of the command-line mains with random '
+                     '-r/-k subsets compared with nested-loop counts over the generated rows')
+        return d
+
+    def generate(self, prop, seed, tier, idx):
+        case = DeliveryEngine.generate(self, prop, seed, tier, idx)
+        case['engine'] = self.name
+        case['cfg']['inferred'] = []
+        st = Streams(seed)
+        rng = st['cli']
+        schema = case['cfg']['schema']
+        # undo "inferred": every class gets its CREATE TABLE in this engine
+        have = set(op['i'] for op in case['ops'] if op['t'] == 'class')
+        for i in range(len(schema['classes'])):
+            if i not in have:
+                case['ops'].insert(0, {'t': 'class', 'i': i})
+        have_u = set(op['i'] for op in case['ops'] if op['t'] == 'unique')
+        for i in range(len(schema['uniques'])):
+            if i not in have_u:
+                case['ops'].append({'t': 'unique', 'i': i})
+        rels = sorted(set(a['rel'] for a in schema['assocs']))
+        kinds = [c['kind'] for c in schema['classes']]
+        cli = []
+        for _ in range(rng.randint(1, 3)):
+            cli.append({'r': rng.sample(rels, rng.randint(0, min(2, len(rels)))) + ([97] if rng.random() < 0.1 else []),
+                        'k': rng.sample(kinds, rng.randint(0, min(2, len(kinds)))),
+                        'tool': rng.choice(['xtuml', 'xtuml', 'xtuml_module', 'bridgepoint'] if rng.random() < 0.15
+                                           else ['xtuml', 'xtuml', 'xtuml_module']),
+                        'files': rng.randint(1, 3), 'order': rng.getrandbits(20)})
+        case['cfg']['cli'] = cli
+        case['cfg']['api'] = False
+        return case
+
+    def expected_counts(self, schema, sch, rows, expected):
+        per_rel = {}
+        for i, a in enumerate(schema['assocs']):
+            n = 0
+            for r in rows:
+                if r['kind'].upper() == a['tgt'].upper():
+                    c = len([p for p in expected[i] if p[1] == r['row']])
+                    if (c == 0 and not a['src_cond']) or (c > 1 and not a['src_many']):
+                        n += 1
+                if r['kind'].upper() == a['src'].upper():
+                    c = len([p for p in expected[i] if p[0] == r['row']])
+                    if (c == 0 and not a['tgt_cond']) or (c > 1 and not a['tgt_many']):
+                        n += 1
+            per_rel[a['rel']] = per_rel.get(a['rel'], 0) + n
+        # identifier violations; referential attributes read as the linked identifying value (or unset)
+        by_row = {r['row']: r for r in rows}
+
+        def read(r, name, depth=0):
+            if name in sch.referential(r['kind']) and depth < 6:
+                vals = []
+                for i, a in enumerate(schema['assocs']):
+                    if a['src'].upper() == r['kind'].upper() and name in a['src_keys']:
+                        tk = a['tgt_keys'][a['src_keys'].index(name)]
+                        for s_, t_ in sorted(expected[i]):
+                            if s_ == r['row']:
+                                vals.append(read(by_row[t_], tk, depth + 1))
+                return vals[0] if vals else None
+            return r['values'][name]
+
+        per_kind = {}
+        for c in schema['classes']:
+            lo = hi = 0
+            ident = sch.identifying(c['kind'])
+            uniq = [u for u in schema['uniques'] if u['kind'].upper() == c['kind'].upper()]
+            seen = {u['name']: [] for u in uniq}
+            for r in rows:
+                if r['kind'].upper() != c['kind'].upper():
+                    continue
+                for name, ty in c['attrs']:
+                    if name not in ident:
+                        continue
+                    v = read(r, name)
+                    if v is None or (ty.upper() == 'UNIQUE_ID' and v == 0):
+                        lo += 1
+                        hi += 1
+                    elif ty.upper() == 'STRING' and v == '':
+                        hi += 1
+                reps = 0
+                for u in uniq:
+                    key = tuple(sqlgen.cv(read(r, n)) for n in u['attrs'])
+                    if key in seen[u['name']]:
+                        reps += 1
+                    seen[u['name']].append(key)
+                if reps:
+                    lo += 1
+                    hi += reps
+            per_kind[c['kind'].upper()] = (lo, hi)
+        return per_rel, per_kind
+
+    def execute(self, case):
+        import runpy
+        import sys
+        x = self.x
+        cfg = case['cfg']
+        log = Log()
+        faults, probes = {}, {}
+        states = set()
+        guard = WallGuard()
+        guard.arm(cfg.get('wall_s', self.WALL_S))
+        violation = None
+        step = -1
+
+        def bump(d, k, n=1):
+            d[k] = d.get(k, 0) + n
+        try:
+            texts, rows, assoc_idx = self.statements(case)
+            schema = {'classes': cfg['schema']['classes'], 'uniques': cfg['schema']['uniques'],
+                      'assocs': [cfg['schema']['assocs'][i] for i in assoc_idx]}
+            sch = refstore.Schema(schema)
+            # shared referential attributes whose associations disagree make "the" value ambiguous: skip those
+            expected = sqlgen.expected_pairs(schema, rows)
+            per_rel, per_kind = self.expected_counts(schema, sch, rows, expected)
+            d = Delivery(x, cfg['plans'][0], faults)
+            d.install()
+            try:
+                step = 0
+                loader = x.ModelLoader()
+                perm, cuts, routes = make_plan(cfg['plans'][0], len(texts))
+                d.deliver(loader, chunked([texts[i] for i in perm], cuts), routes)
+                m = loader.build_metamodel()
+                total_a = sum(per_rel.values())
+                got = x.check_association_integrity(m)
+                if got != total_a:
+                    raise Violation('check', 'check_association_integrity() = %d, the loaded rows give %d violating '
+                                    '(instance, end) pairs (per association %r)' % (got, total_a, per_rel), 'check:assoc')
+                for rel, n in sorted(per_rel.items()):
+                    got = x.check_association_integrity(m, rel)
+                    if got != n:
+                        raise Violation('check', 'check_association_integrity(%d) = %d, expected %d' % (rel, got, n),
+                                        'check:assoc-rel')
+                    if n and any(True for _ in [0]):
+                        bump(probes, 'check_nonzero_assoc')
+                lo = sum(v[0] for v in per_kind.values())
+                hi = sum(v[1] for v in per_kind.values())
+                got = x.check_uniqueness_constraint(m)
+                if not (lo <= got <= hi):
+                    raise Violation('check', 'check_uniqueness_constraint() = %d, expected %d..%d (%r)' % (got, lo, hi, per_kind),
+                                    'check:unique')
+                for kind, (l, h) in sorted(per_kind.items()):
+                    got = x.check_uniqueness_constraint(m, kind)
+                    if not (l <= got <= h):
+                        raise Violation('check', 'check_uniqueness_constraint(%s) = %d, expected %d..%d' % (kind, got, l, h),
+                                        'check:unique-kind')
+                if not (lo == 0 and hi > 0 and total_a == 0):
+                    want = total_a == 0 and hi == 0
+                    if m.is_consistent() is not want:
+                        raise Violation('check', 'is_consistent() = %r with %d association and %d..%d identifier violations'
+                                        % (m.is_consistent(), total_a, lo, hi), 'check:consistent')
+                    bump(probes, 'check_consistent_true' if want else 'check_consistent_false')
+                if probes.get('overpopulated_end') or any(
+                        len([p for p in expected[i] if p[1] == r['row']]) > 1 and not a['src_many']
+                        for i, a in enumerate(schema['assocs']) for r in rows if r['kind'].upper() == a['tgt'].upper()):
+                    bump(probes, 'overpopulated_end_counted')
+                states.add(stable_hash((texts, 'load')))
+                # command-line tools on files
+                for step, c in enumerate(cfg.get('cli', []), 1):
+                    rng = random.Random(c['order'])
+                    order = list(texts)
+                    rng.shuffle(order)
+                    nfiles = max(1, min(c['files'], len(order)))
+                    paths = []
+                    for j in range(nfiles):
+                        path = '/cli/%d_%d.sql' % (step, j)
+                        d.disk.put(path, '\n'.join(order[j::nfiles]) + '\n')
+                        paths.append(path)
+                    args = list(paths)
+                    for r_ in c['r']:
+                        args += [rng.choice(['-r', '-R']), str(r_)]
+                    for k_ in c['k']:
+                        args += ['-k', k_ if rng.random() < 0.5 else k_.lower()]
+                    rng.shuffle(args) if False else None
+                    exp_a = sum(per_rel.get(r_, 0) for r_ in c['r']) if c['r'] else total_a
+                    if c['k']:
+                        elo = sum(per_kind[k_.upper()][0] for k_ in c['k'])
+                        ehi = sum(per_kind[k_.upper()][1] for k_ in c['k'])
+                    else:
+                        elo, ehi = lo, hi
+                    tool = c['tool']
+                    if tool == 'bridgepoint':
+                        import bridgepoint.consistency_check as bcc
+                        got = bcc.main(list(args))
+                        bump(probes, 'cli_bridgepoint')
+                    elif tool == 'xtuml':
+                        import xtuml.consistency_check as xcc
+                        got = xcc.main(list(args))
+                        bump(probes, 'cli_main')
+                    else:
+                        argv = sys.argv
+                        sys.argv = ['consistency_check'] + list(args)
+                        try:
+                            runpy.run_module('xtuml.consistency_check', run_name='__main__')
+                            got = None
+                        except SystemExit as e:
+                            got = e.code
+                        finally:
+                            sys.argv = argv
+                        bump(probes, 'cli_module')
+                        want_nonzero = (exp_a + elo) > 0
+                        if exp_a + elo == 0 and ehi > 0:
+                            continue
+                        if bool(got) is not want_nonzero:
+                            raise Violation('cli', 'python -m xtuml.consistency_check %s exited with %r, the files hold %d '
+                                            'association and %d..%d identifier violations' % (' '.join(args), got, exp_a, elo, ehi),
+                                            'cli:exit-status')
+                        bump(probes, 'cli_exit_nonzero' if want_nonzero else 'cli_exit_zero')
+                        continue
+                    if not (exp_a + elo <= got <= exp_a + ehi):
+                        raise Violation('cli', '%s consistency_check.main(%s) returned %r, the files hold %d association and '
+                                        '%d..%d identifier violations in the selected part'
+                                        % (tool, ' '.join(args), got, exp_a, elo, ehi), 'cli:count')
+                    if c['r'] or c['k']:
+                        bump(probes, 'cli_restricted')
+                    log.event('cli', step, tool, got)
+            finally:
+                d.uninstall()
+        except Violation as v:
+            violation = v.as_dict(step)
+        except SimStall as s:
+            violation = Violation('stall', 'did not return: %s' % s).as_dict(step)
+        except Exception as ex:
+            import traceback
+            tb = traceback.extract_tb(ex.__traceback__)
+            inside = [f for f in tb if '/xtuml/' in f.filename or '/bridgepoint/' in f.filename or '/ply/' in f.filename]
+            if not inside:
+                raise
+            where = '%s:%d' % (inside[-1].filename.rsplit('/', 1)[-1], inside[-1].lineno)
+            violation = Violation('exception', 'unexpected %s: %s at %s' % (type(ex).__name__, ex, where),
+                                  'exception:%s:%s' % (type(ex).__name__, where)).as_dict(step)
+        finally:
+            guard.disarm()
+        if violation:
+            log.event('violation', violation['oracle'])
+        return {'violation': violation, 'digest': log.hexdigest(), 'steps': max(step + 1, 0), 'faults': faults,
+                'probes': probes, 'states': states, 'nontrivial': bool(states), 'lines': 0}
+
+    def reach_missing(self, prop, tier, probes, faults):
+        return [k for k in ('overpopulated_end_counted', 'cli_main', 'cli_module', 'cli_restricted', 'cli_exit_nonzero',
+                            'cli_exit_zero', 'check_nonzero_assoc') if not probes.get(k)]
+
+
+LOAD11 = Load11Engine()
+ENGINES = [ENGINE, LOAD11]
